@@ -107,6 +107,98 @@ def describe(top):
     return out
 
 
+def describe_independent(top):
+    """the topology AS IT IS, read without the attributes a cache could get wrong: an atom's index is its position in
+    topology.atoms, a residue's / chain's index its position in topology.residues / chains, n_bonds a tally over
+    topology.bonds by object identity; the attributes the objects report are returned next to them"""
+    atoms = list(top.atoms)
+    rpos = {id(r): i for i, r in enumerate(top.residues)}
+    cpos = {id(c): i for i, c in enumerate(top.chains)}
+    tally = {id(a): 0 for a in atoms}
+    for b in top.bonds:
+        for x in (b[0], b[1]):
+            if id(x) in tally:
+                tally[id(x)] += 1
+    out = []
+    for i, a in enumerate(atoms):
+        out.append({"name": a.name, "index": i, "attr_index": a.index, "n_bonds": tally[id(a)], "attr_n_bonds": a.n_bonds,
+                    "symbol": a.element.symbol, "mass": repr(float(a.element.mass)), "resname": a.residue.name,
+                    "resSeq": a.residue.resSeq, "resindex": rpos[id(a.residue)], "attr_resindex": a.residue.index,
+                    "chainindex": cpos[id(a.residue.chain)], "attr_chainindex": a.residue.chain.index,
+                    "segment_id": a.residue.segment_id,
+                    "is_backbone": bool(a.is_backbone), "is_sidechain": bool(a.is_sidechain),
+                    "is_protein": bool(a.residue.is_protein), "is_water": bool(a.residue.is_water), "code": a.residue.code})
+    return out
+
+
+def apply_edit(top, e):
+    """in-place edits through the public API / public attributes; returns a short status"""
+    from mdtraj.core import element as E
+    op = e["op"]
+    atoms = list(top.atoms)
+    residues = list(top.residues)
+    if op == "insert":
+        r = residues[e["res"]]
+        before = 0
+        for q in residues:
+            if q is r:
+                break
+            before += q.n_atoms
+        pos = min(e["pos"], r.n_atoms)
+        el = None if e["element"] is None else E.Element.getBySymbol(e["element"])
+        if e.get("append"):
+            top.insert_atom(e["name"], el, r)           # index=None: appended to the topology's atom list
+            return "appended"
+        top.insert_atom(e["name"], el, r, index=before + pos, rindex=pos)
+        return "inserted at %d" % (before + pos)
+    if op == "delete":
+        top.delete_atom_by_index(e["index"])
+        return "deleted"
+    if op == "bond":
+        a, b = atoms[e["i"]], atoms[e["j"]]
+        if a is b or any((x is a and y is b) or (x is b and y is a) for x, y in top.bonds):
+            return "skipped"
+        top.add_bond(a, b)
+        return "bonded"
+    if op == "rename_atom":
+        atoms[e["index"]].name = e["name"]
+    elif op == "element":
+        atoms[e["index"]].element = E.Element.getBySymbol(e["element"])
+    elif op == "rename_res":
+        residues[e["res"]].name = e["name"]
+    elif op == "resSeq":
+        residues[e["res"]].resSeq = e["value"]
+    elif op == "segid":
+        residues[e["res"]].segment_id = e["value"]
+    elif op == "chain_id":
+        list(top.chains)[e["chain"]].chain_id = e["value"]
+    else:
+        raise ValueError(op)
+    return "set"
+
+
+def run_histories(histories):
+    """one Topology object per history; selections interleaved with in-place edits.  Every selection is reported with
+    the version (independent description) of the topology it ran on."""
+    versions, results = [], []
+    for h in histories:
+        top = build_topology(h["spec"])
+        versions.append(describe_independent(top))
+        for st in h["steps"]:
+            if st["op"] == "sel":
+                r = run_case(top, st["s"])
+                r["version"] = len(versions) - 1
+                results.append(r)
+            else:
+                try:
+                    apply_edit(top, st)
+                except Exception as e:  # noqa: BLE001
+                    results.append({"edit_error": "%s: %s" % (cls(e), e), "version": len(versions) - 1, "step": st})
+                    break
+                versions.append(describe_independent(top))
+    return {"atoms": versions, "results": results}
+
+
 def cls(e):
     for c in (RecursionError, TypeError, SyntaxError, ValueError):
         if isinstance(e, c):
@@ -280,6 +372,9 @@ def main():
     req = json.load(sys.stdin)
     if req["mode"] == "tables":
         out = tables()
+    elif req["mode"] == "history":
+        memoise_parser()
+        out = run_histories(req["histories"])
     elif req["mode"] == "meta":
         memoise_parser()
         tops = [build_topology(t) for t in req["topologies"]]
